@@ -42,7 +42,38 @@ func NewTypeWorld() *TypeWorld {
 	return &TypeWorld{structs: map[string]*StructInfo{}, typeIDs: map[string]int{}, typeByID: []types.Type{nil}, shortUsed: map[string]string{}}
 }
 
+// canonType strips parameter / result names from function types (they do not
+// affect type identity but are printed by types.TypeString).
+func canonType(t types.Type) types.Type {
+	switch x := t.(type) {
+	case *types.Signature:
+		strip := func(tp *types.Tuple) *types.Tuple {
+			if tp == nil {
+				return nil
+			}
+			vars := make([]*types.Var, tp.Len())
+			for i := 0; i < tp.Len(); i++ {
+				vars[i] = types.NewVar(0, nil, "", canonType(tp.At(i).Type()))
+			}
+			return types.NewTuple(vars...)
+		}
+		return types.NewSignatureType(nil, nil, nil, strip(x.Params()), strip(x.Results()), x.Variadic())
+	case *types.Pointer:
+		return types.NewPointer(canonType(x.Elem()))
+	case *types.Slice:
+		return types.NewSlice(canonType(x.Elem()))
+	case *types.Array:
+		return types.NewArray(canonType(x.Elem()), x.Len())
+	case *types.Map:
+		return types.NewMap(canonType(x.Key()), canonType(x.Elem()))
+	case *types.Chan:
+		return types.NewChan(x.Dir(), canonType(x.Elem()))
+	}
+	return t
+}
+
 func typeKey(t types.Type) string {
+	t = canonType(t)
 	if b, ok := t.(*types.Basic); ok {
 		switch b.Kind() {
 		case types.Uint8:
